@@ -14,8 +14,9 @@ use wow_srp::normalized_string::NormalizedString;
 fn norm_res(r: Result<Result<NormalizedString, NormalizedStringError>, String>) -> Value {
     match r {
         Ok(Ok(n)) => json!({"kind": "ok", "text": b(n.as_ref().as_bytes()), "display": b(n.to_string().as_bytes())}),
-        Ok(Err(NormalizedStringError::StringTooLong)) => json!({"kind": "errLen"}),
-        Ok(Err(NormalizedStringError::CharacterNotAllowed(c))) => json!({"kind": "errChar", "cp": c as u32}),
+        Ok(Err(e @ NormalizedStringError::StringTooLong)) => json!({"kind": "errLen", "etext": b(e.to_string().as_bytes())}),
+        Ok(Err(NormalizedStringError::CharacterNotAllowed(c))) => json!({"kind": "errChar", "cp": c as u32,
+            "etext": b(NormalizedStringError::CharacterNotAllowed(c).to_string().as_bytes())}),
         Err(m) => panic_res(&m),
     }
 }
